@@ -39,7 +39,7 @@ use std::time::{Duration, Instant};
 pub const META: PropMeta = PropMeta {
     id: "C12",
     level: "exploration",
-    rule: "case = configuration {timeout in Zero|Ms(1..40)|Long(400ms)|None} x {0..4 timers: expired, +1..40ms, equal to the timeout, later than the timeout, far (1h), Duration::MAX, inserted-then-removed} x {0..5 idle sources: ping live/dead, channel live/dead, executor live/scheduler dropped, stream ended/pending, Generic EMPTY/READ quiet, disabled source with pending ping; live ones optionally used once during warm-up} x optional helper thread (ping|channel send|LoopSignal::wakeup|no-op signal to the loop thread, after 5..25ms); one measured dispatch per case after warm-up. non-trivial: (timeout is Some and >= 1 live timer, or a dead-peer source is present) and the dispatch had to wait (L > 0, L = min(timeout, earliest deadline - t_before)). distinct: fingerprint of the normalised configuration",
+    rule: "case = configuration {timeout in Zero|Ms(1..40)|Long(400ms)|None} x {0..4 timers: expired, +1..40ms, equal to the timeout, later than the timeout, far (1h), Duration::MAX, inserted-then-removed (before or after its deadline passed), inserted-then-disabled, armed-then-re-armed by set_deadline+update (old/new deadline past or future)} x {0..5 idle sources: ping live/dead, channel live/dead, executor live/scheduler dropped, stream ended/pending, Generic EMPTY/READ quiet, disabled source with pending ping; live ones optionally used once during warm-up} x optional helper thread (ping|channel send|LoopSignal::wakeup|no-op signal to the loop thread, after 5..25ms); one measured dispatch per case after warm-up, optionally followed by a second measured dispatch (0..40 ms) judged against the timers still armed then (lower bound exact, limiting timer fired, no timer fires twice, upper bound with slack). non-trivial: a follow-up dispatch had to wait although a former / re-armed / already fired timer existed, or (timeout is Some and >= 1 live timer, or a dead-peer source is present) and the dispatch had to wait (L > 0, L = min(timeout, earliest deadline - t_before)). distinct: fingerprint of the normalised configuration",
     assumptions: &[
         "std::time::Instant and the timerfd used by polling both read CLOCK_MONOTONIC; hrtimers never expire early",
         "upper bounds are scheduling-latency bounds: 60 ms slack, only asserted when the same configuration misses 3 times in a row",
@@ -97,6 +97,15 @@ pub enum TimerSpec {
     /// t0 + ms (1..=40), but removed again (LoopHandle::remove) before the measured dispatch:
     /// not an armed timer, must not limit the wait
     Removed { ms: u8 },
+    /// t0 - ago_ms (0..=40): overdue but never dispatched, then removed: not an armed timer
+    RemovedOverdue { ago_ms: u8 },
+    /// t0 + ms (signed, -40..=40; <= 0: overdue), then disabled (LoopHandle::disable) and left disabled:
+    /// not an armed timer
+    Disabled { ms: i8 },
+    /// armed for t0 + old_ms, then re-armed before the measured dispatch through
+    /// set_deadline(t0 + new_ms) + LoopHandle::update (both signed, -40..=40; <= 0: in the past):
+    /// only the new deadline is armed
+    Rearmed { old_ms: i8, new_ms: i8 },
 }
 
 #[derive(Serialize, Deserialize, Debug, Clone, Copy, Hash, PartialEq, Eq)]
@@ -147,6 +156,10 @@ pub struct Case {
     pub timers: Vec<TimerSpec>,
     pub idle: Vec<Idle>,
     pub helper: Option<Helper>,
+    /// a second measured dispatch right after the first, with this timeout in ms (0..=40): judged against
+    /// the timers that are still armed then (ghosts of fired / re-armed / former timers must not shorten it)
+    #[serde(default)]
+    pub follow: Option<u8>,
 }
 
 impl Tmo {
@@ -162,6 +175,10 @@ impl Tmo {
 
 impl TimerSpec {
     /// planned offset from t0 in ms (negative: expired), None = does not bound the wait
+    /// a timer that existed before the measured dispatch but is not armed any more
+    fn former(self) -> bool {
+        matches!(self, TimerSpec::Removed { .. } | TimerSpec::RemovedOverdue { .. } | TimerSpec::Disabled { .. })
+    }
     fn planned_ms(self, timeout: Tmo) -> Option<i64> {
         let t = timeout.duration().map(|d| d.as_millis() as i64);
         match self {
@@ -169,7 +186,8 @@ impl TimerSpec {
             TimerSpec::Expired { ago_ms } => Some(-(ago_ms as i64)),
             TimerSpec::Equal => t,
             TimerSpec::Later { ms } => t.map(|t| t + ms as i64),
-            TimerSpec::Far | TimerSpec::Never | TimerSpec::Removed { .. } => None,
+            TimerSpec::Rearmed { new_ms, .. } => Some(new_ms as i64),
+            TimerSpec::Far | TimerSpec::Never | TimerSpec::Removed { .. } | TimerSpec::RemovedOverdue { .. } | TimerSpec::Disabled { .. } => None,
         }
     }
 }
@@ -237,6 +255,9 @@ pub fn normalise(c: &Case) -> Case {
             TimerSpec::Expired { ago_ms } => TimerSpec::Expired { ago_ms: ago_ms.min(40) },
             TimerSpec::Later { ms } => TimerSpec::Later { ms: ms.clamp(1, 40) },
             TimerSpec::Removed { ms } => TimerSpec::Removed { ms: ms.clamp(1, 40) },
+            TimerSpec::RemovedOverdue { ago_ms } => TimerSpec::RemovedOverdue { ago_ms: ago_ms.min(40) },
+            TimerSpec::Disabled { ms } => TimerSpec::Disabled { ms: ms.clamp(-40, 40) },
+            TimerSpec::Rearmed { old_ms, new_ms } => TimerSpec::Rearmed { old_ms: old_ms.clamp(-40, 40), new_ms: new_ms.clamp(-40, 40) },
             o => o,
         };
     }
@@ -248,6 +269,9 @@ pub fn normalise(c: &Case) -> Case {
     }
     if let Some(h) = &mut n.helper {
         h.delay_ms = h.delay_ms.clamp(5, 25);
+    }
+    if let Some(f) = &mut n.follow {
+        *f = (*f).min(40);
     }
     if n.timeout == Tmo::None && !has_bounding_timer(&n) {
         match &mut n.helper {
@@ -281,7 +305,10 @@ fn timer_strategy() -> impl Strategy<Value = TimerSpec> {
         2 => (1u8..=40).prop_map(|ms| TimerSpec::Later { ms }),
         3 => Just(TimerSpec::Far),
         1 => Just(TimerSpec::Never),
-        3 => (1u8..=40).prop_map(|ms| TimerSpec::Removed { ms }),
+        2 => (1u8..=40).prop_map(|ms| TimerSpec::Removed { ms }),
+        2 => (0u8..=40).prop_map(|ago_ms| TimerSpec::RemovedOverdue { ago_ms }),
+        2 => (-40i8..=40).prop_map(|ms| TimerSpec::Disabled { ms }),
+        4 => (-40i8..=40, -40i8..=40).prop_map(|(old_ms, new_ms)| TimerSpec::Rearmed { old_ms, new_ms }),
     ]
 }
 
@@ -326,9 +353,14 @@ fn case_strategy() -> impl Strategy<Value = Case> {
         prop_oneof![3 => Just(None), 2 => helper_strategy().prop_map(Some)],
         // how an otherwise unbounded Long/None wait gets bounded (construction, not rejection)
         (any::<bool>(), 1u8..=40, helper_strategy()),
+        prop_oneof![3 => Just(None), 2 => (0u8..=40).prop_map(Some)],
     )
-        .prop_map(|(timeout, mut timers, idle, mut helper, (by_timer, ms, h))| {
-            let mut c = Case { timeout, timers: timers.clone(), idle: idle.clone(), helper };
+        .prop_map(|(timeout, mut timers, idle, mut helper, (by_timer, ms, h), follow)| {
+            // the follow-up dispatch is only judged without a waking helper: mostly generate it that way
+            if follow.is_some() && helper.map_or(false, |h| h.kind != HelperKind::Signal && h.delay_ms % 4 != 0) {
+                helper = None;
+            }
+            let mut c = Case { timeout, timers: timers.clone(), idle: idle.clone(), helper, follow };
             let waking_helper = helper.map_or(false, |h| h.kind != HelperKind::Signal);
             if matches!(timeout, Tmo::Long | Tmo::None) && !has_bounding_timer(&c) && !waking_helper {
                 if by_timer {
@@ -340,7 +372,7 @@ fn case_strategy() -> impl Strategy<Value = Case> {
                     let kind = if h.kind == HelperKind::Signal { HelperKind::Wakeup } else { h.kind };
                     helper = Some(Helper { kind, delay_ms: h.delay_ms });
                 }
-                c = Case { timeout, timers, idle, helper };
+                c = Case { timeout, timers, idle, helper, follow };
             }
             c
         })
@@ -474,6 +506,8 @@ struct Obs {
     rescued: Option<Instant>,
     /// callbacks seen in the last warm-up dispatch (should be 0: the loop is quiescent)
     last_warmup_callbacks: usize,
+    /// follow-up dispatch: (t_before, t_after, trace)
+    follow: Option<(Instant, Instant, Vec<(Src, Instant)>)>,
 }
 
 fn read_all(fd: i32) {
@@ -645,10 +679,23 @@ fn run_once(c: &Case) -> Obs {
     let t0 = Instant::now();
     let mut deadlines = Vec::with_capacity(c.timers.len());
     let mut to_remove = Vec::new();
+    let mut to_disable = Vec::new();
+    let mut to_rearm = Vec::new();
+    let signed = |ms: i8| -> Instant {
+        if ms >= 0 {
+            t0 + Duration::from_millis(ms as u64)
+        } else {
+            t0.checked_sub(Duration::from_millis((-(ms as i64)) as u64)).unwrap_or(t0)
+        }
+    };
     for (i, spec) in c.timers.iter().enumerate() {
         let deadline = match *spec {
             TimerSpec::At { ms } | TimerSpec::Removed { ms } => Some(t0 + Duration::from_millis(ms as u64)),
-            TimerSpec::Expired { ago_ms } => Some(t0.checked_sub(Duration::from_millis(ago_ms as u64)).unwrap_or(t0)),
+            TimerSpec::Expired { ago_ms } | TimerSpec::RemovedOverdue { ago_ms } => {
+                Some(t0.checked_sub(Duration::from_millis(ago_ms as u64)).unwrap_or(t0))
+            }
+            TimerSpec::Disabled { ms } => Some(signed(ms)),
+            TimerSpec::Rearmed { old_ms, .. } => Some(signed(old_ms)),
             TimerSpec::Equal => Some(timeout.map_or(t0 + FAR, |t| t0 + t)),
             TimerSpec::Later { ms } => Some(timeout.map_or(t0 + FAR, |t| t0 + t + Duration::from_millis(ms as u64))),
             TimerSpec::Far => Some(t0 + FAR),
@@ -659,22 +706,40 @@ fn run_once(c: &Case) -> Obs {
             None => Timer::from_duration(Duration::MAX),
         };
         let deadline = timer.current_deadline();
-        let tok = h
-            .insert_source(timer, move |_, _, t: &mut Trace| {
-                t.push(Src::Timer(i));
-                TimeoutAction::Drop
-            })
-            .expect("insert timer");
-        if matches!(spec, TimerSpec::Removed { .. }) {
-            // removed after all timers are in the heap (so that it is not necessarily the top)
-            to_remove.push(tok);
-            deadlines.push(None);
-        } else {
-            deadlines.push(deadline);
+        let disp = calloop::Dispatcher::new(timer, move |_, _, t: &mut Trace| {
+            t.push(Src::Timer(i));
+            TimeoutAction::Drop
+        });
+        let tok = h.register_dispatcher(disp.clone()).expect("insert timer");
+        match *spec {
+            // removed / disabled / re-armed after all timers are in the heap (so that the entry is not
+            // necessarily the top)
+            TimerSpec::Removed { .. } | TimerSpec::RemovedOverdue { .. } => {
+                to_remove.push(tok);
+                deadlines.push(None);
+            }
+            TimerSpec::Disabled { .. } => {
+                to_disable.push(tok);
+                deadlines.push(None);
+                keep.push(Box::new(disp));
+            }
+            TimerSpec::Rearmed { new_ms, .. } => {
+                let nd = signed(new_ms);
+                to_rearm.push((tok, disp, nd));
+                deadlines.push(Some(nd));
+            }
+            _ => deadlines.push(deadline),
         }
     }
     for tok in to_remove {
         h.remove(tok);
+    }
+    for tok in &to_disable {
+        h.disable(tok).expect("disable timer");
+    }
+    for (tok, disp, nd) in to_rearm {
+        disp.as_source_mut().set_deadline(nd);
+        h.update(&tok).expect("update timer");
     }
 
     let t_before = Instant::now();
@@ -683,6 +748,14 @@ fn run_once(c: &Case) -> Obs {
 
     cancel.cancel();
     let out = asst.join().expect("assistant thread");
+    // optional follow-up dispatch: the assistant is gone, nothing but the still armed timers can end it early
+    let follow = c.follow.map(|ms| {
+        let mut trace2 = Trace::default();
+        let b = Instant::now();
+        el.dispatch(Some(Duration::from_millis(ms as u64)), &mut trace2).expect("follow-up dispatch");
+        let a = Instant::now();
+        (b, a, trace2.ev)
+    });
     drop(el);
     drop(keep);
     Obs {
@@ -693,6 +766,7 @@ fn run_once(c: &Case) -> Obs {
         acted: out.acted,
         rescued: out.rescued,
         last_warmup_callbacks,
+        follow,
     }
 }
 
@@ -755,7 +829,7 @@ fn judge(c: &Case, o: &Obs) -> Judgement {
             Src::Idle(_) => true,
             Src::HelperTarget => waking.is_none(),
             // a timer removed before the dispatch is not armed: its callback has no cause either
-            Src::Timer(i) => matches!(c.timers.get(*i), Some(TimerSpec::Removed { .. })),
+            Src::Timer(i) => c.timers.get(*i).map_or(false, |t| t.former()),
         })
         .count();
     let fired = |i: usize| o.trace.iter().any(|(s, _)| *s == Src::Timer(i));
@@ -785,6 +859,15 @@ fn judge(c: &Case, o: &Obs) -> Judgement {
             TimerSpec::Equal | TimerSpec::Later { .. } | TimerSpec::Far => "timer:far",
             TimerSpec::Never => "timer:never",
             TimerSpec::Removed { .. } => "timer:removed",
+            TimerSpec::RemovedOverdue { .. } => "timer:removed_overdue",
+            TimerSpec::Disabled { ms } if ms <= 0 => "timer:disabled_overdue",
+            TimerSpec::Disabled { .. } => "timer:disabled",
+            TimerSpec::Rearmed { old_ms, new_ms } => match (old_ms <= 0, new_ms <= 0) {
+                (false, false) => "timer:rearmed_future_to_future",
+                (false, true) => "timer:rearmed_future_to_past",
+                (true, false) => "timer:rearmed_overdue_to_future",
+                (true, true) => "timer:rearmed_overdue_to_past",
+            },
         });
     }
     if c.idle.is_empty() {
@@ -1038,6 +1121,97 @@ fn judge(c: &Case, o: &Obs) -> Judgement {
             );
         }
     }
+
+    // ---- follow-up dispatch ---------------------------------------------------------------------
+    // judged only when nothing but timers can end it: no waking helper in the case (a wake-up that lands between
+    // the end of the first wait and the assistant's cancellation would legitimately end the second one), no rescue
+    if let Some((b2, a2, trace2)) = &o.follow {
+        j.classes.push("follow_up_dispatch");
+        let quiet_helper = matches!(helper_kind, None | Some(HelperKind::Signal));
+        if quiet_helper && !rescued && o.rescued.is_none() {
+            let elapsed2 = *a2 - *b2;
+            let follow_t = Duration::from_millis(c.follow.unwrap_or(0) as u64);
+            // still armed: live deadlines whose timer did not fire in the first dispatch
+            let live2: Vec<(usize, Instant)> =
+                o.deadlines.iter().enumerate().filter_map(|(i, d)| d.map(|d| (i, d))).filter(|(i, _)| !fired(*i)).collect();
+            let earliest2 = live2.iter().map(|(_, d)| *d).min();
+            let l2 = earliest2.map_or(follow_t, |d| follow_t.min(d.saturating_duration_since(*b2)));
+            let unexpected2 = trace2
+                .iter()
+                .filter(|(s, _)| match s {
+                    Src::Timer(i) => !live2.iter().any(|(k, _)| k == i),
+                    _ => true,
+                })
+                .count();
+            let fired2 = |i: usize| trace2.iter().any(|(s, _)| *s == Src::Timer(i));
+            let describe2 = || {
+                format!(
+                    "follow-up dispatch({} ms) began {:.3} ms after the first one began; still armed (deadline - its start, ms): {:?}; its trace={:?}; first dispatch: {}",
+                    follow_t.as_millis(),
+                    ms(*b2 - o.t_before),
+                    live2.iter().map(|(i, d)| (*i, if *d >= *b2 { ms(*d - *b2) } else { -ms(*b2 - *d) })).collect::<Vec<_>>(),
+                    trace2.iter().map(|(s, t)| (*s, ms(t.saturating_duration_since(*b2)))).collect::<Vec<_>>(),
+                    describe()
+                )
+            };
+            if !l2.is_zero() {
+                j.classes.push("follow_up_waited");
+                if c.timers.iter().any(|t| t.former() || matches!(t, TimerSpec::Rearmed { .. })) || o.deadlines.iter().enumerate().any(|(i, d)| d.is_some() && fired(i)) {
+                    // a former, re-armed or already fired timer exists: a ghost entry would shorten this wait
+                    j.classes.push("follow_up_waited_after_timer_left");
+                    j.nontrivial = true;
+                }
+            }
+            if unexpected2 > 0 {
+                j.classes.push("follow_up_unexpected_callback");
+                // a callback of a timer that is not armed any more has no cause at all
+                if let Some((Src::Timer(i), _)) = trace2.iter().find(|(s, _)| matches!(s, Src::Timer(i) if !live2.iter().any(|(k, _)| k == i) && !c.timers.get(*i).map_or(false, |t| t.former()))) {
+                    j.hard.push(
+                        Violation::new("C12.short", format!("timer {i} fired a second time in the follow-up dispatch. {}", describe2()))
+                            .with_sig(SIG_SHORT),
+                    );
+                }
+            } else {
+                if elapsed2 < l2 {
+                    j.hard.push(
+                        Violation::new(
+                            "C12.short",
+                            format!(
+                                "follow-up dispatch returned after {:.3} ms with no event; it had to wait at least {:.3} ms. {}",
+                                ms(elapsed2),
+                                ms(l2),
+                                describe2()
+                            ),
+                        )
+                        .with_sig(SIG_SHORT),
+                    );
+                } else {
+                    let missing: Vec<usize> =
+                        live2.iter().filter(|(_, d)| Some(*d) == earliest2 && *d <= *b2).map(|(i, _)| *i).filter(|i| !fired2(*i)).collect();
+                    if !missing.is_empty() {
+                        j.hard.push(
+                            Violation::new(
+                                "C12.short",
+                                format!("follow-up dispatch did not fire timer(s) {:?} whose deadline had passed before it began. {}", missing, describe2()),
+                            )
+                            .with_sig(SIG_NOT_FIRED),
+                        );
+                    }
+                }
+                if elapsed2 > l2 + SLACK {
+                    j.soft.push(
+                        Violation::new(
+                            "C12.long",
+                            format!("follow-up dispatch took {:.3} ms but its limit was {:.3} ms (slack {} ms). {}", ms(elapsed2), ms(l2), SLACK.as_millis(), describe2()),
+                        )
+                        .with_sig(SIG_LONG),
+                    );
+                }
+            }
+        } else {
+            j.classes.push("follow_up_not_judged_helper_or_rescue");
+        }
+    }
     j
 }
 
@@ -1133,7 +1307,7 @@ fn cross_product(include_long_waits: bool) -> Vec<Case> {
             Tmo::Ms(7) => 3,
             _ => 9,
         };
-        let relations: [Vec<TimerSpec>; 9] = [
+        let relations: [Vec<TimerSpec>; 13] = [
             vec![],
             vec![TimerSpec::Expired { ago_ms: 2 }],
             vec![TimerSpec::At { ms: earlier_ms }],
@@ -1146,11 +1320,21 @@ fn cross_product(include_long_waits: bool) -> Vec<Case> {
             vec![TimerSpec::Far, TimerSpec::Removed { ms: 4 }],
             // two removed timers, the later one removed first (while it is not the top of the heap)
             vec![TimerSpec::Far, TimerSpec::Removed { ms: 9 }, TimerSpec::Removed { ms: 4 }],
+            // former / re-armed timers; these four get a follow-up dispatch of 15 ms
+            vec![TimerSpec::Far, TimerSpec::RemovedOverdue { ago_ms: 3 }],
+            vec![TimerSpec::Far, TimerSpec::Disabled { ms: -3 }, TimerSpec::Disabled { ms: 5 }],
+            vec![TimerSpec::Far, TimerSpec::Rearmed { old_ms: 6, new_ms: -1 }],
+            vec![TimerSpec::Rearmed { old_ms: -2, new_ms: 4 }, TimerSpec::Rearmed { old_ms: 3, new_ms: 30 }],
         ];
         for timers in relations {
             for k in 0..=ALL_IDLE.len() {
                 let idle = if k == 0 { vec![] } else { vec![ALL_IDLE[k - 1]] };
-                let c = normalise(&Case { timeout, timers: timers.clone(), idle, helper: None });
+                let follow = if timers.iter().any(|t| matches!(t, TimerSpec::RemovedOverdue { .. } | TimerSpec::Disabled { .. } | TimerSpec::Rearmed { .. })) {
+                    Some(15)
+                } else {
+                    None
+                };
+                let c = normalise(&Case { timeout, timers: timers.clone(), idle, helper: None, follow });
                 if !include_long_waits && planned_bound_ms(&c).map_or(true, |b| b > 60) {
                     continue;
                 }
@@ -1240,11 +1424,11 @@ pub fn check(ctx: &CheckCtx) -> Option<Found> {
     }
     if thorough {
         ctx.col.exhaustive(
-            "class cross product: 5 timeout classes x 9 timer-relation classes x (no idle source + 18 idle-source kinds), one fixed representative inside each class",
+            "class cross product: 5 timeout classes x 13 timer-relation classes x (no idle source + 18 idle-source kinds), one fixed representative inside each class",
         );
     } else {
         ctx.col.note(format!(
-            "class cross product restricted to the {n_cross} combinations whose correct wait is <= 60 ms (thorough runs all 855)"
+            "class cross product restricted to the {n_cross} combinations whose correct wait is <= 60 ms (thorough runs all 1235)"
         ));
     }
     ctx.col.set_sub("config.cross_product", serde_json::json!({ "combinations": n_cross }));
